@@ -10,6 +10,7 @@ R5.3  import obligations of the handler: every emit of a template that mentions 
 R5.4  text/binary bodies are not JSON-decoded: every function that emits `response.json()` for a strategy/return
       type first excludes str/bytes
 R5.5  no-content => None on the primary and the secondary path
+R5.7  the SSE runtime decoder itself: accumulator typestate and field parsing                 [rules shared with C18]
 R5.6  streaming: the handler delegates chunks/events to the runtime decoders unchanged (decoders themselves: C18)
 """
 from __future__ import annotations
@@ -136,6 +137,8 @@ def run(repo: Repo, rep: Report, tier: str) -> None:
         else:
             rep.violation("R5.5", sub, f"{grh.fq}|no-content|{label}", "a declared success response without content no longer yields `return None`", grh.loc())
 
+    _streaming_runtime(repo, rep)
+
     # ---------------------------------------------------------------- R5.6 streaming delegation
     wsr = hmod.classes["EndpointResponseHandlerGenerator"].methods["_write_strategy_based_return"]
     lines = [const_str(c.args[0]) for c in calls_in(wsr.node) if isinstance(c.func, ast.Attribute) and c.func.attr == "write_line" and c.args and const_str(c.args[0])]
@@ -146,6 +149,21 @@ def run(repo: Repo, rep: Report, tier: str) -> None:
             rep.ok("R5.6", sub, f"emits `{head}` / `{body}`: every chunk/event of the runtime decoder is yielded, in order", wsr.loc())
         else:
             rep.violation("R5.6", sub, f"{wsr.fq}|streaming|{head[:30]}", "the streaming template no longer yields every item of the runtime decoder unchanged", wsr.loc())
+
+
+def _streaming_runtime(repo: Repo, rep: Report) -> None:
+    """R5.7: the runtime decoders the streaming templates delegate to deliver exactly the events the server sent
+    (rules of C18 applied under this property: accumulator typestate and field parsing of the SSE decoder)."""
+    from rules import c18
+
+    mod = repo.module(c18.MOD)
+    sse = mod.functions.get("iter_sse")
+    pe = mod.functions.get("_parse_sse_event")
+    if sse is None or pe is None:
+        raise AnalysisError("anchor vanished: iter_sse / _parse_sse_event")
+    r = _Relabel(rep, "R5.7")
+    c18._sse_typestate(sse, r)
+    c18._parse_event_rules(pe, r)
 
 
 def _template_text_of_call(fn: Function, c: ast.Call) -> Optional[str]:
@@ -262,3 +280,23 @@ def _json_guard(fn: Function, rep: Report) -> None:
             rep.violation("R5.4", sub, f"{fn.fq}|json-for-text|{sorted(seen_kinds & kinds_dom)}",
                           "`response.json()` is emitted without first excluding str/bytes return types: a text/plain or binary body raises "
                           "JSONDecodeError instead of being returned", fn.loc(c))
+
+
+class _Relabel:
+    def __init__(self, rep, rule):
+        self.rep, self.rule = rep, rule
+
+    def ok(self, rule, *a, **k):
+        self.rep.ok(self.rule, *a, **k)
+
+    def violation(self, rule, *a, **k):
+        self.rep.violation(self.rule, *a, **k)
+
+    def require(self, *a, **k):
+        self.rep.require(*a, **k)
+
+    def error(self, *a, **k):
+        self.rep.error(*a, **k)
+
+    def count(self, *a, **k):
+        pass
